@@ -316,6 +316,18 @@ func (w *World) Commit(n string) int {
 	return len(w.AbsH[n]) - 1
 }
 
+// UpgradeRev: governance upgrades chain cn's client of dn to the next revision of dn's chain id, at block 5 of that revision.
+func (w *World) UpgradeRev(cn, dn string) (string, string) {
+	c, d := w.Chains[cn], w.Chains[dn]
+	rev := clienttypes.ParseChainID(d.ChainID)
+	next := d.ChainID[:strings.LastIndex(d.ChainID, "-")+1] + strconv.FormatUint(rev+1, 10)
+	cs := xibctmtypes.NewClientState(next, xibctmtypes.DefaultTrustLevel, 14*24*time.Hour, 21*24*time.Hour, time.Hour,
+		clienttypes.NewHeight(rev+1, 5), commitmenttypes.GetSDKSpecs(), commitmenttypes.MerklePrefix{KeyPrefix: []byte("xibc")}, worldDelay())
+	p, err := clienttypes.NewUpgradeClientProposal("t", "d", d.ChainID, cs, d.LastHdr.ConsensusState())
+	must(err)
+	return c.ExecProposal(p)
+}
+
 // Regenesis restarts chain n's xibc module from its own exported genesis: export, JSON round trip, validation, the
 // module store emptied, InitGenesis (what a chain restarted from an exported genesis file runs).
 func (w *World) Regenesis(n string) (res string, msg string) {
@@ -1016,8 +1028,9 @@ func (w *World) Project(n string) M {
 		cl := M{"exists": false, "latest": -1, "cons": []int{}, "proc": [][]int{}}
 		if cs, ok := c.App.XIBCKeeper.ClientKeeper.GetClientState(ctx, did); ok {
 			cons := []int{}
+			drev := w.Chains[d].Revision()
 			c.App.XIBCKeeper.ClientKeeper.IterateConsensusStates(ctx, func(chainName string, s clienttypes.ConsensusStateWithHeight) bool {
-				if chainName == did {
+				if chainName == did && s.Height.RevisionNumber == drev { // (heights of a later revision installed by an upgrade are not abstract heights)
 					cons = append(cons, w.absHeightOf(d, s.Height.RevisionHeight))
 				}
 				return false
@@ -1027,7 +1040,7 @@ func (w *World) Project(n string) M {
 			proc := [][]int{}
 			cstore := c.App.XIBCKeeper.ClientKeeper.ClientStore(ctx, did)
 			c.App.XIBCKeeper.ClientKeeper.IterateConsensusStates(ctx, func(chainName string, s clienttypes.ConsensusStateWithHeight) bool {
-				if chainName == did {
+				if chainName == did && s.Height.RevisionNumber == drev {
 					at := -1
 					if pt, ok := xibctmtypes.GetProcessedTime(cstore, s.Height); ok {
 						for i, t := range w.AbsT[n] {
@@ -1040,7 +1053,11 @@ func (w *World) Project(n string) M {
 				}
 				return false
 			})
-			cl = M{"exists": true, "latest": w.absHeightOf(d, cs.GetLatestHeight().GetRevisionHeight()), "cons": cons, "proc": proc}
+			latest := w.absHeightOf(d, cs.GetLatestHeight().GetRevisionHeight())
+			if cs.GetLatestHeight().GetRevisionNumber() != drev {
+				latest = 999 // XIBC.Beyond: the client was moved to another revision
+			}
+			cl = M{"exists": true, "latest": latest, "cons": cons, "proc": proc}
 		}
 		clients[d] = cl
 	}
